@@ -17,10 +17,59 @@ def feat(rng):
     return RG.Feat(operands=0.75, max_spine=rng.choice([1, 2, 3, 4]))
 
 
+HREGS = ["ah", "bh", "ch", "dh"]
+
+
+def hexh_stratum(ctx, d, n):
+    """Operand names that look like '<hex>h' but are the 8-bit registers ah/bh/ch/dh (literal, metacharacter-free names)."""
+    import random
+    from jv import listing as L
+    rng = ctx.rng
+    for _ in range(n):
+        insts = []
+        addr = 0x401000
+        for _ in range(rng.randint(3, 10)):
+            m = rng.choice(["mov", "movb", "add", "xor", "cmp"])
+            ops = [rng.choice(["%ah", "%bh", "%ch", "%dh", "%al", "%bl", "$0xa", "$0xb", "$0xc", "%rax"]) for _ in range(2)]
+            insts.append(L.SInst(addr, m, ops, None, None, 2))
+            addr += 2
+        from jv import dsl
+        prep = dsl.Prepared(d.ws, insts, rng)
+        ctx.ran()
+        if not prep.verify(d.ws):
+            ctx.inconc("parser disagreement on synthetic listing")
+            continue
+        d.prep, d.style = prep, "hexh"
+        k = rng.randrange(len(insts))
+        name = rng.choice(HREGS)
+        pos = rng.randrange(2)
+        ops = [name] if pos == 0 else [rng.choice(["%", "a", "0x"]), name]
+        d.run_pattern([{insts[k].mnem: ops}], "base", True)
+
+
+def classify(doc, prep, o):
+    """Open finding F13: operand names of the form <hex>h are rewritten to 0x<hex> (no field window)."""
+    import re
+
+    def names(node):
+        if isinstance(node, str):
+            yield node
+        elif isinstance(node, list):
+            for x in node:
+                yield from names(x)
+        elif isinstance(node, dict):
+            for v in node.values():
+                yield from names(v)
+    if any(re.fullmatch(r"[0-9a-fA-F]+h", n) for n in names(doc.get("pattern"))):
+        return "hexh_operand_name_rewritten"
+    return None
+
+
 def run_shard(ctx):
-    d = drive.Driver(ctx, feat, flags="all4", styles=("mixed", "runs", "dups", "regs"))
+    d = drive.Driver(ctx, feat, flags="all4", styles=("mixed", "runs", "dups", "regs"), classify=classify)
     d.loop(1500, 50000)
+    hexh_stratum(ctx, d, ctx.share(64, 2000))
 
 
 def replay(ctx, case):
-    drive.replay_dsl(ctx, case)
+    drive.replay_dsl(ctx, case, classify=classify)
